@@ -16,7 +16,60 @@ LB = "bibtexparser.library.Library."
 EN = "bibtexparser.model.Entry."
 EPT = "bibtexparser.entrypoint."
 IP = "bibtexparser.middlewares.interpolate."
+SP = "bibtexparser.splitter.Splitter."
+SPLIT_SCANNERS = [SP + "_next_mark", SP + "_move_to_closed_bracket", SP + "_move_to_comma_or_closing_curly_bracket", SP + "_move_to_end_of_entry"]
+SPLIT_HANDLERS = [SP + "_handle_explicit_comment", SP + "_handle_preamble", SP + "_handle_string", SP + "_handle_entry"]
+SPLIT_LEMMAS = ["nls-run", "nls-monotone", "bal-skips-newlines", "field-state-skips-newlines"]
+MARK_NOTE = (STD_NOTE + "; A-RE (ASSUMED, validated bounded every run by native/a_re.py against the pattern the running code passes to re.finditer): "
+             "the marks are non-empty, ordered, non-overlapping, each one of { } \" , = newline or an '@word' directly followed by a '{' mark; "
+             "match objects and the iterator are modelled by ghost arrays and a ghost cursor (pyvc/marks.py); the contract of "
+             "Splitter._end_implicit_comment is ASSUMED in split() (38 of its 40 obligations discharge, 2 string obligations stay undecided; "
+             "checked bounded by native p03); Library.add / Library() enter through their C08 contracts (add re-proved for fail_on_duplicate_key=False: no exception)")
 PROPS = {
+    "C01": {
+        "level": "other",
+        "level_text": "Mixed. Proved on the real splitter functions, for every mark sequence of any length (A-RE assumed): Splitter.split raises nothing and terminates (a decreasing measure over the marks on every loop: split, _next_mark, the three scanners); every block handler raises nothing but BlockAbortedException, which split turns into a ParsingFailedBlock carrying the error and raw = text[start of '@' : end_index] with start <= end_index; the parser-state / regex-mismatch branches are dead code; _next_mark's newline skipping is a loop (no recursion depth); Library.add is called so that it cannot raise. Bounded (native, labelled): parse_string / write_string end to end (middleware stacks, writer on failed blocks, deepcopy of errors), arbitrary Unicode, size-scaled families, hangs.",
+        "level_note": MARK_NOTE,
+        "modules": ["schema", "library", "model", "splitter"],
+        "functions": SPLIT_SCANNERS + SPLIT_HANDLERS + [SP + "split", SP + "_end_implicit_comment", LB + "add#single-quiet", LB + "__init__#empty"],
+        "lemmas": SPLIT_LEMMAS,
+        "native": "p01",
+        "assumption_checks": ["A-RE"],
+        "explanation": "proved: split() is exception-free and terminating for every mark sequence, handlers only abort with BlockAbortedException, aborts become failed blocks; bounded: parse_string/write_string end to end, Unicode, size families",
+    },
+    "C02": {
+        "level": "other",
+        "level_text": "Mixed. Proved on the real splitter functions at the level of marks (A-RE assumed), for every text: the balanced-brace scanner returns the first '}' at brace balance 0; the field-value scanner implements exactly the quote/brace state machine (a quote toggles only outside braces, braces inside quotes are counted separately) and stops at the first ',' or '}' outside quotes and braces; the entry scanner returns one fresh Field per `key = value` in source order with value = the stripped text between '=' and that stop mark, key = the stripped text from the previous comma (or the entry body start) to the '=' with no other mark in between; @comment/@preamble/@string/entry handlers return blocks whose type, key, value/comment and raw are the stated slices of the text. Bounded (native, labelled): that grammar-derived documents produce those mark sequences (the grammar lemma), implicit comments, block order in the library end to end.",
+        "level_note": MARK_NOTE,
+        "modules": ["schema", "splitter"],
+        "functions": SPLIT_SCANNERS + SPLIT_HANDLERS,
+        "lemmas": SPLIT_LEMMAS,
+        "native": "p02",
+        "assumption_checks": ["A-RE"],
+        "explanation": "proved: scanner state machines and the slices that become keys, values, comments and raw texts; bounded: grammar-derived documents end to end (grammar lemma), implicit comments, block order",
+    },
+    "C03": {
+        "level": "other",
+        "level_text": "Mixed. Proved on the real splitter functions (A-RE assumed): the line counter equals the number of newline marks consumed minus one at every call boundary (scan invariant), every block's start_line is the line of its '@' mark and every field's start_line the line of its '='; raw of a block is text[start of '@' : end of its closing '}'], raw of a failed block is text[start of '@' : end_index] where end_index is the start of the handed-back mark or the end of the text, the next free text starts exactly there (no character between a failed block and what follows is dropped or shared), and the pending free-text start never lies beyond unconsumed text. Bounded (native, labelled): the tiling statement over whole documents (needs the assumed contract of _end_implicit_comment and character-level reasoning on free text), CRLF / backslash-newline families, that every newline character is a newline mark.",
+        "level_note": MARK_NOTE,
+        "modules": ["schema", "library", "model", "splitter"],
+        "functions": SPLIT_SCANNERS + SPLIT_HANDLERS + [SP + "split", SP + "_end_implicit_comment"],
+        "lemmas": SPLIT_LEMMAS,
+        "native": "p03",
+        "assumption_checks": ["A-RE"],
+        "explanation": "proved: line counting, start lines, raw boundaries of blocks and failed blocks, free-text start bookkeeping; bounded: whole-document tiling, implicit comment extraction, CRLF/backslash families",
+    },
+    "C04": {
+        "level": "other",
+        "level_text": "Mixed. Proved on the real splitter functions (A-RE assumed): marks are consumed strictly left to right (the cursor never decreases), at most one mark is pending and it is the one yielded last; no scanner or handler ever consumes an '@' mark: on meeting one it hands it back and aborts with end_index = its start, so split's next iteration starts a block exactly there; after every block or failure the scanner state is reset and nothing is pending except such a handed-back mark; at the end all marks are consumed. Bounded (native, labelled): equality of the blocks of D1+X+D2 with those of D1 and D2 (needs the grammar lemma for D1/D2), random corruptions.",
+        "level_note": MARK_NOTE,
+        "modules": ["schema", "library", "model", "splitter"],
+        "functions": SPLIT_SCANNERS + SPLIT_HANDLERS + [SP + "split", SP + "_end_implicit_comment"],
+        "lemmas": SPLIT_LEMMAS,
+        "native": "p04",
+        "assumption_checks": ["A-RE"],
+        "explanation": "proved: left-to-right consumption, hand-back of every '@' mark by every scanner, resync of split at the handed-back mark; bounded: block equality of D1+X+D2 versus D1 and D2",
+    },
     "C09": {
         "level": "other",
         "level_text": "Mixed. Proved (contracts on the real functions): insertion never overwrites the key index -- a later Entry/String whose key is indexed comes back as a fresh DuplicateBlockKeyBlock exposing the key, the FIRST (live) block and the complete duplicate, entries and strings use separate indexes, other blocks pass through (Library._add_to_dicts, _cast_to_duplicate, add: one block appended per argument at its own position, the class invariant of C08 kept); both duplicate wrappers keep what they were given (constructors). Bounded (native, labelled): the number of returned blocks equals the number of source blocks for grammar-derived documents (needs the grammar lemma), the splitter's duplicate-field tracking end to end.",
